@@ -111,6 +111,7 @@ func checkC06(r *Run) {
 	// ---- R-C06-5
 	c.ruleReaderExit(r5)
 	c.ruleReaderRecords(r5)
+	c.ruleErrBeforeDone(r5)
 }
 
 // ruleGuardTightness (used by C04/C05/C07): run the prover over the read side and report over-strict guards in the
